@@ -90,10 +90,9 @@ def validate(rep, recs, tag, which="C04"):
         if res["rc"] not in (0, 12, 13) and not res["violated"]:
             vlib.tlc_must_pass(res, tag)
         names = []
-        with open(res["out"], errors="replace") as f:
-            for ln in f:
-                if ln.startswith('<<"REJECTED"'):
-                    names.append(ln.split('"')[3])
+        for ln in res["printed"]:
+            if ln.startswith('<<"REJECTED"'):
+                names.append(ln.split('"')[3])
         if not names:
             break
         rejected += names
